@@ -217,24 +217,24 @@ VARIABLES sent,     \* message sequence (indices into Msgs)
           eof,      \* the underlying reader has reported EOF
           r,        \* reader automaton state
           read,     \* messages decoded so far (indices into Msgs)
+          bstart,   \* wire position where the body being read began (0: in a header)
           chunks    \* history: sizes of the chunks delivered; -(k+1) = k bytes and EOF in one read (output only)
 
 \* the message (if any) whose complete body is exactly wire[s..e]
 DecodeAt(regs, s, e) == LET hit == {i \in 1..Len(regs) : regs[i].s = s /\ regs[i].e = e}
                         IN  IF hit = {} THEN 0 ELSE regs[CHOOSE i \in hit : TRUE].msg
 
-\* feed wire[i..j] to the automaton; bstart = wire position of the first byte of the body being read
+\* feed wire[i..j] to the automaton; bs = wire position of the first byte of the body being read
 RECURSIVE Feed(_, _, _, _, _, _, _)
-Feed(w, regs, st, out, bstart, i, j) ==
-    IF i > j \/ st.st = "err" THEN [r |-> st, read |-> out, bstart |-> bstart]
+Feed(w, regs, st, out, bs, i, j) ==
+    IF i > j \/ st.st = "err" THEN [r |-> st, read |-> out, bstart |-> bs]
     ELSE IF Completes(st)
-         THEN LET m == DecodeAt(regs, bstart, i)
+         THEN LET m == DecodeAt(regs, bs, i)
               IN  IF m = 0 THEN [r |-> Fail("decode"), read |-> out, bstart |-> 0]
                   ELSE Feed(w, regs, Step(st, w[i]), Append(out, m), 0, i + 1, j)
          ELSE LET nx == Step(st, w[i])
-              IN  Feed(w, regs, nx, out, IF st.st = "hdr" /\ nx.st = "body" THEN i + 1 ELSE bstart, i + 1, j)
+              IN  Feed(w, regs, nx, out, IF st.st = "hdr" /\ nx.st = "body" THEN i + 1 ELSE bs, i + 1, j)
 
-VARIABLE bstart
 allvars == <<sent, var, wire, regions, pos, eof, r, read, chunks, bstart>>
 
 RECURSIVE SeqsUpTo(_)
